@@ -2,6 +2,7 @@ package props
 
 import (
 	"fmt"
+	"math"
 	"strconv"
 	"strings"
 )
@@ -412,7 +413,7 @@ func refUnwind(a []any, depth int) []any {
 }
 
 // selEqual compares an implementation value with a reference value; pipeString leaves are checked
-// by law: integer-valued number -> its decimal integer text; other number -> any text that parses
+// by law: integer-valued number (inside the int64 range) -> its decimal integer text; other number -> any text that parses
 // back to the same number; string -> itself; NULL/bool/other -> any string.
 func selEqual(got, want any) bool {
 	switch w := want.(type) {
@@ -423,7 +424,7 @@ func selEqual(got, want any) bool {
 		}
 		switch o := w.of.(type) {
 		case float64:
-			if o == float64(int64(o)) && o > -1e15 && o < 1e15 {
+			if o == math.Trunc(o) && o > -(1<<63) && o < (1<<63) {
 				return s == strconv.FormatInt(int64(o), 10)
 			}
 			f, err := strconv.ParseFloat(s, 64)
